@@ -264,6 +264,7 @@ func (l *PartitionLog) AppendBatch(ctx context.Context, batch RecordBatch) (*App
 		if l.onFlush != nil {
 			l.onFlush(ctx, artifact)
 		}
+		l.finishFlush()
 	}
 	return result, nil
 }
@@ -308,31 +309,45 @@ func (l *PartitionLog) Flush(ctx context.Context) error {
 		l.flushCond.Wait()
 	}
 	artifact, err := l.prepareFlush()
-	l.mu.Unlock()
 	if err != nil {
+		l.mu.Unlock()
 		return err
 	}
+	target := artifact
+	if artifact == nil && l.onFlush != nil && l.nextOffset > 0 {
+		// Nothing buffered and no flush in progress: every assigned offset is
+		// already in a segment. Capture the end offset in the same critical
+		// section (a later append must not be published before it is uploaded)
+		// and hold the flushing flag so this publish is ordered with the
+		// publishes of real flushes.
+		target = &SegmentArtifact{LastOffset: l.nextOffset - 1}
+		l.flushing = true
+	}
+	l.mu.Unlock()
 
 	if artifact != nil {
 		if err := l.uploadFlush(ctx, artifact); err != nil {
 			return err
 		}
 	}
-	if l.onFlush != nil {
-		target := artifact
-		if target == nil {
-			l.mu.Lock()
-			current := l.nextOffset - 1
-			l.mu.Unlock()
-			if current >= 0 {
-				target = &SegmentArtifact{LastOffset: current}
-			}
-		}
-		if target != nil {
+	if target != nil {
+		if l.onFlush != nil {
 			l.onFlush(ctx, target)
 		}
+		l.finishFlush()
 	}
 	return nil
+}
+
+// finishFlush ends the flush started by prepareFlush (or by an empty Flush that
+// only publishes the end offset). The flushing flag is held until the onFlush
+// callback has returned, so end-offset publishes happen one at a time and in
+// flush order and can never land out of order in the metadata store.
+func (l *PartitionLog) finishFlush() {
+	l.mu.Lock()
+	l.flushing = false
+	l.flushCond.Broadcast()
+	l.mu.Unlock()
 }
 
 // prepareFlush drains the buffer and builds a segment artifact under l.mu.
@@ -418,10 +433,10 @@ func (l *PartitionLog) uploadFlush(ctx context.Context, artifact *SegmentArtifac
 	if artifact.RelativeIndex != nil {
 		l.indexEntries[artifact.BaseOffset] = artifact.RelativeIndex
 	}
-	l.flushing = false
 	// The segment is now in l.segments; the in-flight copy is no longer needed.
+	// l.flushing stays set until the caller has published the new end offset
+	// (see finishFlush).
 	l.flushingBatches = nil
-	l.flushCond.Broadcast()
 	lastSegIdx := len(l.segments) - 1
 	l.mu.Unlock()
 
